@@ -2,6 +2,7 @@ package transaction
 
 import (
 	"crypto/elliptic"
+	"encoding/json"
 	"errors"
 	"fmt"
 	"math/big"
@@ -31,6 +32,21 @@ var (
 	_ = stackitem.Convertible(&Signer{})
 	_ = smartcontract.Convertible(&Signer{})
 )
+
+// UnmarshalJSON implements the json.Unmarshaler interface. A null in the
+// list of allowed groups is not a group.
+func (c *Signer) UnmarshalJSON(data []byte) error {
+	type signerAux Signer // no methods: the fields are decoded by their tags
+	aux := new(signerAux)
+	if err := json.Unmarshal(data, aux); err != nil {
+		return err
+	}
+	if slices.Contains(aux.AllowedGroups, nil) {
+		return errors.New("null in the list of allowed groups")
+	}
+	*c = Signer(*aux)
+	return nil
+}
 
 // EncodeBinary implements the Serializable interface.
 func (c *Signer) EncodeBinary(bw *io.BinWriter) {
